@@ -9,6 +9,7 @@ import (
 	"testing"
 
 	"verifharness/appsys"
+	"verifharness/dconc"
 	"verifharness/sysrun"
 	"verifharness/vh"
 )
@@ -92,6 +93,26 @@ func TestCheck(t *testing.T) {
 	}
 	if err := run.Finish("random whole-instance scenarios (config, alert timelines, receiver fault scripts, silences, nflog GC) run under synctest virtual time; one case per aggregation group = its event list with observed outputs; non-trivial = at least 2 flushes and 1 delivered notification"); err != nil {
 		t.Fatal(err)
+	}
+	// third part: "admitted under any configured limits" — the dispatcher's group-limit accounting under hook-driven
+	// schedules of workers, maintenance and flushes (groups destroyed and re-created by flapping alerts): the counter
+	// compared with the limit must be the number of groups in the map (Model/DispatchConc.v), so an alert needing a new
+	// group is refused only when that many groups exist
+	runD := vh.NewRun(env, "AM.Run.DConcRun")
+	runD.Prefix = "d"
+	if env.Replay == "" {
+		dconc.T = t
+		coq, js, viol, dstats := dconc.Run(env, vh.NewRand(env.Seed+4243), env.N(120, 8))
+		for i := range coq {
+			runD.Add(coq[i], map[string]any{"kind": "dconc", "dcase": js[i]}, true)
+		}
+		for _, v := range viol {
+			runD.Violate(v.Key, v.What, map[string]any{"kind": "dconc", "dcase": v.Case})
+		}
+		runD.Rep.Distribution["dconc"] = dstats
+		if err := runD.Finish("hook-driven schedules of ingestion workers, doMaintenance and flushes on the real dispatcher with and without a group limit (package dconc); compared with Model/DispatchConc.v incl. the group counter and the limit-reached counter"); err != nil {
+			t.Fatal(err)
+		}
 	}
 	if err := runI.Finish("the same scenarios as ONE case each for the instance model (Model/Instance.v): real routing tree, global event list, a published alert is one event and the model routes and groups it; non-trivial = at least 2 alerts published and 2 distinct groups flushed"); err != nil {
 		t.Fatal(err)
